@@ -181,7 +181,9 @@ theorem calculateSingleWith_emits (ds : Dataset) (cs : ConnSet) (p : Params) (ac
     (hclean : ∀ depT arrT, CleanupPreserves (mkCtx ds p cs accessFoot egressFoot depT arrT) cs.rev)
     {r : Route} (h : calculateSingleWith ds cs p accessFoot egressFoot = .ok r) :
     ∃ depT arrT bd j, r = emit ds p.minWait bd j ∧ JourneyOK (mkCtx ds p cs accessFoot egressFoot depT arrT) cs.rev bd j ∧
-      0 ≤ bd ∧ (p.forward = true → p.time ≤ bd) ∧ (p.forward = false → p.time - bd ≤ p.maxTotal) := by
+      0 ≤ bd ∧ (p.forward = true → p.time ≤ bd) ∧ (p.forward = false → p.time - bd ≤ p.maxTotal) ∧
+      (p.forward = false → arrT = p.time) ∧ (p.forward = true → arrT - p.time ≤ p.maxTotal) ∧
+      (p.forward = true → depT = p.time) := by
   unfold calculateSingleWith at h
   split at h
   · cases h
@@ -198,21 +200,28 @@ theorem calculateSingleWith_emits (ds : Dataset) (cs : ConnSet) (p : Params) (ac
             · cases h
             · split at h
               · cases h
-              · rename_i bestArr _ _
+              · rename_i bestArr bestNode hbe
                 obtain ⟨bd, j, h1, h2, h3, _, h5⟩ := singleReverse_emits
                   (cx := { mkCtx ds p cs accessFoot egressFoot p.time (-1) with arrT := bestArr })
                   _ hs hm hmw (hclean p.time bestArr) h
-                refine ⟨p.time, bestArr, bd, j, h1, h2, h3, ?_, ?_⟩
+                have hspan := bestEgress_spec hbe
+                refine ⟨p.time, bestArr, bd, j, h1, h2, h3, ?_, ?_, ?_, ?_, ?_⟩
                 · intro _
                   by_cases hd : p.time = -1
                   · omega
                   · exact h5 hd
                 · intro hf; rw [hf] at hfwd; cases hfwd
+                · intro hf; rw [hf] at hfwd; cases hfwd
+                · intro _; exact hspan
+                · intro _; rfl
         · rw [if_neg hfwd] at h
           obtain ⟨bd, j, h1, h2, h3, h4, _⟩ := singleReverse_emits (cx := mkCtx ds p cs accessFoot egressFoot (-1) p.time)
             _ hs hm hmw (hclean (-1) p.time) h
-          refine ⟨-1, p.time, bd, j, h1, h2, h3, ?_, ?_⟩
+          refine ⟨-1, p.time, bd, j, h1, h2, h3, ?_, ?_, ?_, ?_, ?_⟩
           · intro hf; exact absurd hf hfwd
           · intro _; exact h4
+          · intro _; rfl
+          · intro hf; exact absurd hf hfwd
+          · intro hf; exact absurd hf hfwd
 
 end Tr
